@@ -34,12 +34,15 @@ type ansD struct {
 	St    int    `json:"st"`
 	Loc   hlib.B `json:"loc,omitempty"`
 	NoLoc bool   `json:"noloc,omitempty"` // no Location header at all
+	Loc2  hlib.B `json:"loc2,omitempty"`  // a second Location header line after the first
 }
 
 type hdrD struct {
 	K   hlib.B `json:"k"`
 	V   hlib.B `json:"v"`
 	Add bool   `json:"add,omitempty"`
+	// SetCookie: req.Header.SetCookie(K, V) (the cookie jar) instead of a header named K
+	SetCookie bool `json:"setcookie,omitempty"`
 }
 
 type desc struct {
@@ -59,6 +62,7 @@ type desc struct {
 	// stream+postargs / raw+postargs = both
 	BodyKind string `json:"bodykind,omitempty"`
 	NoPathNorm bool   `json:"nopathnorm,omitempty"`
+	HostHdr    hlib.B `json:"hosthdr,omitempty"` // DoRedirects: req.Header.SetHostBytes(HostHdr) and URL used as a bare request URI
 	Chain      []ansD `json:"chain,omitempty"`
 	A          hlib.B `json:"a,omitempty"`
 	B          hlib.B `json:"b,omitempty"`
@@ -223,19 +227,39 @@ func (nw *network) serve(addr string, c net.Conn) {
 		}
 		nw.next++
 		nw.mu.Unlock()
-		var out bytes.Buffer
-		fmt.Fprintf(&out, "HTTP/1.1 %d X\r\n", a.St)
-		if !a.NoLoc {
-			out.WriteString("Location: ")
-			out.Write(a.Loc)
-			out.WriteString("\r\n")
-		}
-		out.WriteString("Content-Length: 0\r\n\r\n")
+		out := answerBytes(a)
 		c.SetWriteDeadline(time.Now().Add(5 * time.Second))
-		if _, err := c.Write(out.Bytes()); err != nil {
+		if _, err := c.Write(out); err != nil {
 			return
 		}
 	}
+}
+
+func answerBytes(a ansD) []byte {
+	var out bytes.Buffer
+	fmt.Fprintf(&out, "HTTP/1.1 %d X\r\n", a.St)
+	if !a.NoLoc {
+		out.WriteString("Location: ")
+		out.Write(a.Loc)
+		out.WriteString("\r\n")
+	}
+	if len(a.Loc2) > 0 {
+		out.WriteString("Location: ")
+		out.Write(a.Loc2)
+		out.WriteString("\r\n")
+	}
+	out.WriteString("Content-Length: 0\r\n\r\n")
+	return out.Bytes()
+}
+
+// the Location value the client's response parser hands to the redirect loop (which of several header lines, trimming):
+// response header parsing is not C20's subject, so the real parser is the oracle
+func effectiveLocation(a ansD) []byte {
+	var rh fasthttp.ResponseHeader
+	if err := rh.Read(bufio.NewReader(bytes.NewReader(answerBytes(a)))); err != nil {
+		return nil
+	}
+	return append([]byte(nil), rh.Peek("Location")...)
 }
 
 // ---- running one case ------------------------------------------------------------------------
@@ -319,7 +343,9 @@ func runCase(d desc) hlib.Case {
 		}
 		req.Header.SetMethod(d.Method)
 		for _, h := range d.Hdrs {
-			if h.Add {
+			if h.SetCookie {
+				req.Header.SetCookieBytesKV(h.K, h.V)
+			} else if h.Add {
 				req.Header.AddBytesKV(h.K, h.V)
 			} else {
 				req.Header.SetBytesKV(h.K, h.V)
@@ -327,6 +353,9 @@ func runCase(d desc) hlib.Case {
 		}
 		if d.DN && d.ReNorm {
 			req.Header.EnableNormalizing()
+		}
+		if len(d.HostHdr) > 0 {
+			req.Header.SetHostBytes(d.HostHdr)
 		}
 		req.SetRequestURIBytes(d.URL)
 		mpBody := func() []byte {
@@ -439,10 +468,7 @@ func runCase(d desc) hlib.Case {
 	answers := make([]string, len(d.Chain))
 	pattern := ""
 	for i, a := range d.Chain {
-		loc := a.Loc
-		if a.NoLoc {
-			loc = nil
-		}
+		loc := effectiveLocation(a)
 		var rhost []byte
 		ok := false
 		if len(loc) > 0 {
@@ -661,6 +687,8 @@ func chain(r *rand.Rand, init string, n int) []ansD {
 	for i := 0; i < n; i++ {
 		a := ansD{St: hlib.Pick(r, redirStatuses), Loc: location(r, init)}
 		switch r.Intn(25) {
+		case 2:
+			a.Loc2 = location(r, init)
 		case 0:
 			a.St = hlib.Pick(r, []int{200, 204, 300, 304, 305, 306, 309, 404, 500})
 		case 1:
@@ -749,6 +777,14 @@ func genRun(r *rand.Rand) desc {
 		}
 		if r.Intn(4) == 0 {
 			d.Hdrs = append(d.Hdrs, hdrD{K: []byte("Content-Type"), V: []byte("text/plain")})
+		}
+		if r.Intn(8) == 0 {
+			d.Hdrs = append(d.Hdrs, hdrD{K: []byte("jar"), V: []byte("j1"), SetCookie: true})
+		}
+		if r.Intn(12) == 0 && scheme == "http://" && ui == "" {
+			// Host header + bare request URI instead of an absolute URL
+			d.HostHdr = []byte(hostSp)
+			d.URL = []byte(hlib.Pick(r, []string{"/", "/start", "/a/b?x=1"}))
 		}
 		if d.Method != "GET" && d.Method != "HEAD" || r.Intn(5) == 0 {
 			if r.Intn(4) != 0 {
@@ -917,6 +953,23 @@ func corpus() []desc {
 				}
 			}
 		}
+	}
+	// several Location header lines: whichever one the client follows, the credentials go by the host actually contacted
+	for _, p := range [][2]string{{"http://evil.com/x", "http://a.com/y"}, {"http://a.com/y", "http://evil.com/x"}, {"/same", "//evil.com/"}, {"http://sub.a.com/", "http://sub.a.com.evil.com/"}} {
+		c = append(c, std("http://a.com/", []ansD{{St: 302, Loc: []byte(p[0]), Loc2: []byte(p[1])}, {St: 307, Loc: []byte("/next")}}))
+		c = append(c, std("http://a.com/", []ansD{{St: 303, NoLoc: true, Loc2: []byte(p[0])}}))
+	}
+	// the initial host comes from the Host header and a bare request URI; cookies put into the jar with SetCookie
+	for _, l := range []string{"http://evil.com/x", "http://sub.a.com/x", "/rel", "//evil.com", "http://a.com.evil.com/"} {
+		d := std("/start?x=1", redirectsTo(l, "http://a.com/back"))
+		d.HostHdr = []byte("A.com:8080")
+		c = append(c, d)
+		d2 := std("http://a.com/", redirectsTo(l, "/again"))
+		d2.Hdrs = []hdrD{{K: []byte("sid"), V: []byte("1"), SetCookie: true}, {K: []byte("tok"), V: []byte("2"), SetCookie: true}, {K: []byte("Authorization"), V: []byte("c0=1")}}
+		c = append(c, d2)
+		d3 := d2
+		d3.DN = true
+		c = append(c, d3)
 	}
 	// every other body source (bodyRaw, caller-supplied post args, lazily parsed post args, multipart form, stream + post args)
 	// x every status, same host and cross host: the request after a 303 must be body-less whatever the source was
